@@ -180,7 +180,7 @@ fn on_panic(p: Panic, ctx: &mut Ctx, title: &str, r: &Runner, debug: bool) -> Ca
 	}
 	if (locktime && !debug_foreign("locktime")) || (!locktime && other_node && !debug_foreign("othernode")) {
 		let loc = lp.as_ref().map(|(_, l)| l.rsplit('/').next().unwrap_or("").to_string()).unwrap_or_default();
-		ctx.label(&if locktime { "foreign-failure:C07:broadcast-before-locktime-after-reorg".to_string() } else { format!("foreign-failure:C07:panic-in-unobserved-node@{}", loc) });
+		ctx.label(&if locktime { "foreign-failure:C07:broadcast-before-locktime-after-reorg".to_string() } else { format!("foreign-failure:panic-in-unobserved-node@{}", loc) });
 		return Ok(());
 	}
 	set_last_panic(lp);
@@ -388,7 +388,7 @@ fn main() {
 		PartSpec {
 			name: "delivery-equivalence",
 			rule: "pair / line-of-3 worlds, traffic leaving pending HTLCs, force close by either side (told or silent) or none, chain script of mined candidate sets, runs of empty blocks, jumps to HTLC expiries, late claims and forks of depth 1..6 whose competing branch re-mines / delays / replaces by a conflicting spend / drops each removed transaction; 3-4 replicas: plain Listen, the eleven ConnectStyles switched per step, Confirm/Listen mixes (filtered, duplicated, split, best-block first or skipped, per-tx unconfirm, fork-point disconnect in one or several calls, lagging), and one that only ever sees the final chain. Non-trivial: a reorg removed >=1 channel transaction and replicas with different call schedules were compared at a common tip afterwards",
-			quick_cases: 900,
+			quick_cases: 800,
 			thorough_cases: 30_000,
 			max_shrink: 40,
 		},
